@@ -14,7 +14,11 @@ V = os.path.dirname(os.path.dirname(os.path.abspath(__file__)))
 tier = sys.argv[sys.argv.index("--tier") + 1] if "--tier" in sys.argv else "quick"
 meta = json.load(open(os.path.join(d, "meta.json")))
 env = dict(os.environ, GOFLAGS="-mod=mod", GOPROXY="off", GOSUMDB="off", GOTOOLCHAIN="local")
-wt = "/tmp/benchk-%s-%d" % (os.path.basename(d), os.getpid())
+# a fixed path per slot keeps the Go build cache effective (the cache key includes the directory)
+wt = "/tmp/verifchk-slot%s" % os.environ.get("VERIF_SLOT", "0")
+subprocess.run("git -C /repo worktree remove --force %s" % wt, shell=True, stdout=subprocess.DEVNULL, stderr=subprocess.DEVNULL)
+shutil_rm = __import__("shutil").rmtree
+shutil_rm(wt, ignore_errors=True)
 
 
 def sh(cmd, cwd=None, timeout=7200, extra=None):
